@@ -141,4 +141,25 @@ CLAIMS = {
         'design_ref': 'DESIGN.md 4.5, 4.4, 4.1, 5 (C12)',
         'note': TRUST,
     },
+    'C02': {
+        'technique': 'static analysis: kind (type-state) analysis of quantum-number stores, pairing rules on the sweep machine, leg-domain charge orientation, layout rules',
+        'text': 'Per operation, for all inputs: every quantum-number container ever stored is an ndarray (reported F3: '
+                'from_vector stored Python lists, which broke every later operation of a history); every bond-changing '
+                'tensor store is paired with the label store of the same bond from the same factorisation; charges handed to '
+                'the block QR / SVD and the sign of every stored label agree with the sparsity rule of the object; labels of '
+                'products and sums are ordered like the merged legs / blocks.  The induction over histories additionally '
+                'relies on the per-operation runtime asserts; numerical vanishing of blocks is not decided.',
+        'design_ref': 'DESIGN.md 4.8, 4.3, 4.4, 5 (C02)',
+        'note': TRUST + '; class invariant (X.qd ndarray, X.qD list of ndarray) used for loads is what the stores establish',
+    },
+    'C03': {
+        'technique': 'static analysis: leg-domain evaluation of product / merge / split code, AST layout rules for block sums and dense conversions',
+        'text': 'Decides the index-wiring part of the homomorphism laws: which legs are contracted and how bond legs are '
+                'grouped in apply / compose / merge / split, block layout and alpha placement of sums in both the L == 1 and '
+                'L > 1 branches, site-major ordering of every dense conversion, total singular-value exponent 1 in all '
+                'three split modes.  Dense equality up to rounding, the sparse as_matrix path and from_vector numerics are '
+                'not decided.',
+        'design_ref': 'DESIGN.md 4.4, 5 (C03)',
+        'note': TRUST,
+    },
 }
